@@ -94,16 +94,18 @@ def gen_history(rng, tier, bound=False):
 
 def make_cached(form, maxsize, typed, kind):
     """kind: function | method | classmethod | staticmethod. Returns (call, clear, info, discard, params)."""
-    state = {"n": 0}
+    state = {"n": 0, "none_at": NONE_AT["n"]}
 
     def body(args, kw):
         n = state["n"]
         state["n"] += 1
         if fails(args, kw):
             raise ValueError("boom")
-        return n
+        return None if n == state["none_at"] else n     # one invocation per history returns None: a legal result to cache
 
     def deco_async():
+        if form == "direct":          # the function handed over directly together with an explicit typed=
+            return lambda f: a.lru_cache(f, typed=typed)
         if form == "bare":
             return a.lru_cache
         if form == "cache":
@@ -113,6 +115,8 @@ def make_cached(form, maxsize, typed, kind):
         return a.lru_cache(maxsize=maxsize, typed=typed)
 
     def deco_sync():
+        if form == "direct":
+            return lambda f: functools.lru_cache(f, typed=typed)
         if form == "bare":
             return functools.lru_cache
         if form == "cache":
@@ -124,6 +128,7 @@ def make_cached(form, maxsize, typed, kind):
 
 
 FALSY = {"on": False}
+NONE_AT = {"n": 1}
 
 
 def build(form, maxsize, typed, kind, flavour):
@@ -199,7 +204,7 @@ def run_history(form, maxsize, typed, kind, flavour, ops, which):
                     r = drive(t(*op[1], **dict(op[2])))
                 else:
                     r = t(*op[1], **dict(op[2]))
-                obs.append(("ret", r, state["n"] != before))
+                obs.append(("ret", state["none_at"] if r is None else r, state["n"] != before))
             except ValueError:
                 obs.append(("raised",))
             except BaseException as e:  # noqa
@@ -254,15 +259,16 @@ def run(tier, seed):
     texts, fails_n = [], 0
     dist = {}
     for i in range(n):
-        form = rng.choice(["bare", "call_default", "args", "args", "args", "args", "cache"])
+        form = rng.choice(["bare", "call_default", "args", "args", "args", "args", "cache", "direct"])
+        NONE_AT["n"] = rng.randrange(0, 5)
         maxsize = rng.choice([None, -1, 0, 1, 2, 3, 4, 5])
         typed = rng.random() < 0.5
         kind = rng.choice(["function", "function", "method", "classmethod", "staticmethod"])
         ops = gen_history(rng, tier)
         which = [rng.randrange(2) for _ in ops]
         FALSY["on"] = rng.random() < 0.25
-        eff_max = {"bare": 128, "call_default": 128, "cache": None}.get(form, maxsize)
-        eff_typed = typed if form in ("args", "call_default") else False
+        eff_max = {"bare": 128, "call_default": 128, "cache": None, "direct": 128}.get(form, maxsize)
+        eff_typed = typed if form in ("args", "call_default", "direct") else False
         dist[(form, kind)] = dist.get((form, kind), 0) + 1
         ai = run_history(form, maxsize, typed, kind, "async", ops, which)
         # functools has no cache_discard: its history omits those operations (they must then be no-ops for the comparison,
@@ -286,6 +292,54 @@ def run(tier, seed):
             m, "true" if eff_typed else "false",
             "; ".join(coq_op(o, kind, w) for o, w in builtins.zip(ops, which)),
             "; ".join(coq_obs(o) for o in ai), "; ".join(coq_obs(o) for o in si)))
+    # directed: (1) a call pattern whose only argument is an int equal to the hash of another pattern's key object: the two
+    # dictionary keys collide and are compared with ==; (2) keyword names that the library's own functions use as
+    # parameter names are ordinary keyword arguments of the cached function
+    try:
+        from asyncstdlib import _lrucache as _lc
+        coll = []
+        for typed in (False, True):
+            for args in ((1, 2), (0, "a"), ((1, 2), 3)):
+                k = hash(_lc.CallKey.from_call(args, {}, typed))
+                coll.append((typed, args, k))
+    except Exception:  # noqa  (no such internal any more: nothing to aim at)
+        coll = []
+    for typed, args, k in coll:
+        for maxsize in (None, 2):
+            ops = [("call", args, ()), ("call", (k,), ()), ("info",), ("call", (k,), ()), ("call", args, ()), ("info",)]
+            which = [0] * len(ops)
+            NONE_AT["n"] = 9
+            ai = run_history("args", maxsize, typed, "function", "async", ops, which)
+            si = run_history("args", maxsize, typed, "function", "sync", ops, which)
+            rep.count(("collision", typed, args, maxsize), True)
+            if ai != si:
+                fails_n += 1
+                rep.violation("lru:history", {"form": "args", "maxsize": maxsize, "typed": typed, "kind": "function", "ops": repr(ops), "which": which,
+                                              "why": "hash-colliding call patterns: asyncstdlib %r functools %r" % (ai, si)})
+    for kwname in ("self", "key", "maxsize", "typed", "fn", "function", "args", "kwargs", "kwds", "instance", "wrapped", "call", "cache", "user_function", "func"):
+        def one(lib):
+            calls = []
+            if lib == "asl":
+                @a.lru_cache(maxsize=2)
+                async def f(**kw):
+                    calls.append(kw)
+                    return len(calls)
+                return [drive(f(**{kwname: 1})), drive(f(**{kwname: 1})), drive(f(**{kwname: 2})), tuple(f.cache_info())[:2], len(calls)]
+
+            @functools.lru_cache(maxsize=2)
+            def g(**kw):
+                calls.append(kw)
+                return len(calls)
+            return [g(**{kwname: 1}), g(**{kwname: 1}), g(**{kwname: 2}), tuple(g.cache_info())[:2], len(calls)]
+        try:
+            ra = one("asl")
+        except BaseException as e:  # noqa
+            ra = "raised %s: %s" % (type(e).__name__, e)
+        rs = one("std")
+        rep.count(("kwname", kwname), True)
+        if ra != rs:
+            fails_n += 1
+            rep.violation("lru:history", {"keyword": kwname, "why": "a keyword argument named %r: asyncstdlib %r functools %r" % (kwname, ra, rs)})
     rep.notes["decorator_form_distribution"] = {"%s/%s" % k: v for k, v in dist.items()}
     shards = [texts[i:i + 300] for i in range(0, len(texts), 300)]
     outs = coq_eval_files("c10", [HEADER + "Definition cases : list lcase := [\n" + ";\n".join(sh) + "\n].\nEval vm_compute in (lfailing cases).\n" for sh in shards])
